@@ -12,7 +12,7 @@ def _cancelled():
     return out
 
 
-PROFILE = {'fixed': _cancelled(), 'quick': 500, 'thorough': 25000, 'lengths': [8, 14, 22], 'finale': ['drain', 'settle'], 'weights': {'upgrade': 16, 'frame': 26, 'wsclose': 8, 'poll': 12, 'send': 12, 'open': 8, 'open_ws': 3, 'post': 3, 'adv': 4, 'bad': 1, 'api': 2, 'disc': 1, 'cancel': 6}, 'p_async': 0.2, 'p_websocket': 0.85, 'p_polling': 0.9}
+PROFILE = {'fixed': _cancelled() + hsuite.overlapping_upgrades(), 'quick': 500, 'thorough': 25000, 'lengths': [8, 14, 22], 'finale': ['drain', 'settle'], 'weights': {'upgrade': 16, 'frame': 26, 'wsclose': 8, 'poll': 12, 'send': 12, 'open': 8, 'open_ws': 3, 'post': 3, 'adv': 4, 'bad': 1, 'api': 2, 'disc': 1, 'cancel': 6}, 'p_async': 0.2, 'p_websocket': 0.85, 'p_polling': 0.9}
 RULE = ('seeded histories (opens with every connect outcome, polls, posts, upgrade handshakes, WebSocket frames and closes, application calls, refused requests, clock advances) over up to 4 sessions, each run on the threaded and the asyncio server and through the model; '
         'weighted towards upgrade sockets and every frame a client can send on them (right, wrong type, wrong payload, oversize, undecodable), closes at each handshake point, concurrent polls and sends, allow_upgrades/transports settings. distinct = distinct (server, configuration, stimuli)')
 
